@@ -96,6 +96,16 @@ def compute_path(counts):
             state.get_next(count, new_states)
         states = new_states
         states = sort_states(states)
+        # states that agree on (apocount, bold, italic) have the same future: keep the first of each,
+        # so that the cut to 32 below never drops the cheapest path of a long line
+        seen = set()
+        unique = []
+        for state in states:
+            key = (state.apocount, state.is_bold, state.is_italic)
+            if key not in seen:
+                seen.add(key)
+                unique.append(state)
+        states = unique
         best = states[0]
         if best.apocount == 0 and not best.is_italic and not best.is_bold:
             states = [best]
